@@ -1,3 +1,3 @@
-import alloc_common
-A = alloc_common.pairs()
-PAIRS = [A[k] for k in ("realloc_zero", "recalloc", "fwd_rezalloc")]
+import alloc_common, aligned_common
+A = alloc_common.pairs(); B = aligned_common.pairs()
+PAIRS = [A[k] for k in ("realloc_zero", "recalloc", "fwd_rezalloc")] + [v for k, v in B.items() if k.startswith("realloc_aligned_") or k.startswith("overalloc_")]
